@@ -128,7 +128,7 @@ class C06(props.Prop):
         v.absorb(res)
         spec['choices'] = res.choices
         rec = res.rec
-        if res.outcome in ('hang', 'stepcap', 'deadlock') or str(
+        if res.outcome in ('hang', 'stepcap', 'wallcap', 'deadlock') or str(
                 res.outcome).startswith('harness'):
             v.aborted = res.outcome
             v.key = res.trace_digest
